@@ -25,8 +25,8 @@ func TestSelfRFCVectors(t *testing.T) {
 		}
 	}
 	for _, v := range []struct {
-		version                                  uint32
-		cs, ck, civ, chp, ss, sk, siv, shp       string
+		version                            uint32
+		cs, ck, civ, chp, ss, sk, siv, shp string
 	}{
 		{Version1, "c00cf151ca5be075ed0ebfb5c80323c42d6b7db67881289af4008f1f6c357aea", "1f369613dd76d5467730efcbe3b1a22d", "fa044b2f42a3fd3b46fb255c", "9f50449e04a0e810283a1e9933adedd2",
 			"3c199828fd139efd216c155ad844cc81fb82fa8d7446fa7d78be803acdda951b", "cf3a5331653c364c88f0f379b6067e37", "0ac1493ca1905853b0bba03e", "c206b8d9b9f0f37644430b490eeaa314"},
@@ -49,7 +49,7 @@ func TestSelfRFCVectors(t *testing.T) {
 	// A.3 server Initial, v1 and v2 (RFC 9369 A.3)
 	payload := hx("02000000000600405a020000560303eefce7f7b37ba1d1632e96677825ddf73988cfc79825df566dc5430b9a045a1200130100002e00330024001d00209d3c940d89690b84d08a60993c144eca684d1081287c834d5311bcf32bb9da1a002b00020304")
 	for _, v := range []struct {
-		version uint32
+		version  uint32
 		hdr, pkt string
 	}{
 		{Version1, "c1000000010008f067a5502a4262b50040750001", "cf000000010008f067a5502a4262b5004075c0d95a482cd0991cd25b0aac406a5816b6394100f37a1c69797554780bb38cc5a99f5ede4cf73c3ec2493a1839b3dbcba3f6ea46c5b7684df3548e7ddeb9c3bf9c73cc3f3bded74b562bfb19fb84022f8ef4cdd93795d77d06edbb7aaf2f58891850abbdca3d20398c276456cbc42158407dd074ee"},
